@@ -18,7 +18,7 @@ E2DIR = os.path.join(C.BUILD, "e2")
 
 def _run(cmd, cwd=None, env=None, timeout=1800):
     try:
-        p = subprocess.run(cmd, cwd=cwd, env=env or C.ENV_BASE, stdout=subprocess.PIPE, stderr=subprocess.PIPE, text=True, timeout=timeout)
+        p = subprocess.run(cmd, cwd=cwd, env=env or C.ENV_BASE, stdin=subprocess.DEVNULL, stdout=subprocess.PIPE, stderr=subprocess.PIPE, text=True, timeout=timeout)
         return p.returncode, p.stdout, p.stderr
     except subprocess.TimeoutExpired:
         return None, "", "timeout"
